@@ -75,12 +75,12 @@ func corpusChunk(r *kernel.RNG, maxLines int) string {
 var tgSyms = []string{"a", "b", "foo", "x1", "long-name", "q?", "b.c", "a.b.c", ".x", "nil", "true", "false", "$", "&", "hget", "def", "fn"}
 var tgKeys = []string{"a:", "key:", "b2:"}
 var tgNums = []string{"0", "1", "-1", "42", "-7", "1_000", "0x1F", "0o17", "0b101", "1.5", "-2.5", ".5", "1e3", "1e-3", "-2.5e+3", "1E10", "3ULL", "0xffULL", "1.", "NaN", "9223372036854775807"}
-var tgStrs = []string{"\"p\n\nq\"", `""`, `"s"`, `"a b"`, `"a\"b"`, `"x\\y"`, `"tab\there"`, `"nl\nx"`, `"((("`, `"]})"`, `"// not a comment"`, `"/* nor this */"`, "\"tick ` tick\"", `"é世界"`, `"'q'"`, `"a\#b"`}
-var tgRaws = []string{"``", "`raw`", "`raw \"q\" (`", "`two\nlines`", "`// c`", "`a\\b`", "`]}`", "`first\n\nthird`", "`\n`", "`a\n\n\nb\n`"}
+var tgStrs = []string{"\"p\n\nq\"", `""`, `"s"`, `"a b"`, `"a\"b"`, `"x\\y"`, `"tab\there"`, `"nl\nx"`, `"((("`, `"]})"`, `"// not a comment"`, `"/* nor this */"`, "\"tick ` tick\"", `"é世界"`, `"'q'"`, `"a\#b"`, "\"one\r\ntwo\"", "\"cr\rlf\"", "\"\r\n\""}
+var tgRaws = []string{"``", "`raw`", "`raw \"q\" (`", "`two\nlines`", "`// c`", "`a\\b`", "`]}`", "`first\n\nthird`", "`\n`", "`a\n\n\nb\n`", "`r1\r\nr2`", "`\r\n`"}
 var tgChars = []string{"'a'", "'Z'", "'('", "'\\n'", "'\\''", "'\"'", "' '", "'é'"}
 var tgOps = []string{"+", "-", "*", "/", "<", "<=", ">", ">=", "==", "!=", "**", "and", "or", "not", "mod"}
 var tgInfixOps = []string{"+", "-", "*", "/", "<", "<=", ">", ">=", "==", "!=", "**", "=", ":=", "+=", "-=", "&&", "||"}
-var tgComments = []string{"// c\n", "// ( \" [ {\n", "/* b */", "/* ( \" \n ] */", "/**/", "/* * / */", "//\n", "/* x\n\n y */", "/*\n\n*/"}
+var tgComments = []string{"// c\n", "// ( \" [ {\n", "/* b */", "/* ( \" \n ] */", "/**/", "/* * / */", "//\n", "/* x\n\n y */", "/*\n\n*/", "// c\r\n", "/* a\r\nb */", "/* c **/", "/***/", "/* ** */", "/* * **/"}
 var tgWs = []string{" ", " ", " ", "\n", "  ", "\t", "\r\n", " \n "}
 
 type textGen struct {
@@ -217,7 +217,8 @@ func (g *textGen) expr(d int) string {
 		case 2:
 			return "^(" + g.r.Pick(tgSyms) + " ~" + g.r.Pick(tgSyms) + " ~@" + g.r.Pick(tgSyms) + ")"
 		}
-		return "~" + g.r.Pick(tgSyms)
+		// unquote and unquote-splicing of any operand, with and without a blank in between
+		return g.r.Pick([]string{"~", "~@", "~ ", "~@ ", "~", "~"}) + g.expr(d+1)
 	}
 	return g.atom()
 }
@@ -270,6 +271,7 @@ type scanState struct {
 	Mismatch   bool // a closer that does not match the innermost opener / stray closer
 	TrailAtom  bool // text ends inside an atom (no delimiter after the last token)
 	TrailOp    bool // text ends right after a prefix operator or inside an operator
+	PendingPre bool // a prefix operator (quote, syntax-quote, unquote, unquote-splicing) still waits for its operand
 	LastSignif rune
 }
 
@@ -341,6 +343,9 @@ func refScan(text string) scanState {
 		}
 		st.TrailAtom = false
 		st.TrailOp = false
+		if !strings.ContainsRune(" \t\n\r,", c) && !strings.ContainsRune("%^~@", c) {
+			st.PendingPre = false
+		}
 		switch c {
 		case '/':
 			if i+1 < len(rs) && rs[i+1] == '/' {
@@ -378,6 +383,7 @@ func refScan(text string) scanState {
 			atomStart = true
 		case '%', '^', '~', '@':
 			st.TrailOp = true
+			st.PendingPre = true
 			atomStart = true
 		case '+', '-', '*', '<', '>', '=', '!', '&', '|', ':':
 			st.TrailOp = true
